@@ -156,6 +156,9 @@ type mwNext struct {
 	calls int
 	size  int
 	wrote *dns.Msg
+
+	// build, if not nil, builds the response of the given size.
+	build func(req *dns.Msg, size int) (resp *dns.Msg)
 }
 
 func (n *mwNext) ServeDNS(ctx context.Context, rw dnsserver.ResponseWriter, req *dns.Msg) (err error) {
@@ -163,7 +166,11 @@ func (n *mwNext) ServeDNS(ctx context.Context, rw dnsserver.ResponseWriter, req 
 	if n.size == 0 {
 		return nil
 	}
-	n.wrote = c09ref.Resp(req, n.size)
+	if n.build != nil {
+		n.wrote = n.build(req, n.size)
+	} else {
+		n.wrote = c09ref.Resp(req, n.size)
+	}
 
 	return rw.WriteMsg(ctx, req, n.wrote)
 }
@@ -194,14 +201,17 @@ type mwWorld struct {
 	win    map[string]*c09ref.Window
 }
 
-func mwNewWorld(cfg mwCfg) (w *mwWorld) {
+func mwNewWorld(cfg mwCfg) (w *mwWorld) { return mwNewWorldEst(cfg, mwEst) }
+
+// mwNewWorldEst is mwNewWorld with the response size estimate est.
+func mwNewWorldEst(cfg mwCfg, est int) (w *mwWorld) {
 	w = &mwWorld{cfg: cfg}
 	w.backoff = ratelimit.NewBackoff(&ratelimit.BackoffConfig{
 		Allowlist:            ratelimit.NewDynamicAllowlist(mwAllow, nil),
 		Period:               30 * time.Second,
 		Duration:             60 * time.Second,
 		Count:                cfg.BC,
-		ResponseSizeEstimate: mwEst * datasize.B,
+		ResponseSizeEstimate: datasize.ByteSize(est) * datasize.B,
 		IPv4Count:            cfg.N4,
 		IPv4Interval:         mwIvl,
 		IPv4SubnetKeyLen:     24,
@@ -219,16 +229,16 @@ func mwNewWorld(cfg mwCfg) (w *mwWorld) {
 	w.profs = map[string]*agd.Profile{
 		"X": {ID: "profx", Ratelimiter: agd.NewDefaultRatelimiter(&agd.RatelimitConfig{
 			ClientSubnets: mwXSubnets, RPS: cfg.RPS, Enabled: true,
-		}, mwEst*datasize.B)},
+		}, datasize.ByteSize(est)*datasize.B)},
 		"Y": {ID: "profy", Ratelimiter: agd.NewDefaultRatelimiter(&agd.RatelimitConfig{
 			RPS: cfg.RPS, Enabled: true,
-		}, mwEst*datasize.B)},
+		}, datasize.ByteSize(est)*datasize.B)},
 		"Z": {ID: "profz", Ratelimiter: agd.GlobalRatelimiter{}},
 	}
 	w.dev = &agd.Device{ID: "dev1"}
 	w.global = c09ref.New(c09ref.Config{
 		N4: int(cfg.N4), N6: int(cfg.N4), Ivl4: int64(mwIvl), Ivl6: int64(mwIvl), Len4: 24, Len6: 48,
-		BackoffCount: int(cfg.BC), Est: mwEst, RefuseANY: cfg.Refuse,
+		BackoffCount: int(cfg.BC), Est: est, RefuseANY: cfg.Refuse,
 	})
 	w.win = map[string]*c09ref.Window{"X": {}, "Y": {}}
 
@@ -516,6 +526,7 @@ func TestVerifC09MW(t *testing.T) {
 				}
 			}
 		}
+		mwWriterPart(r, expired)
 	})
 	r.Finish()
 	os.Exit(0)
